@@ -105,7 +105,7 @@ def run(sdir, tier="quick", verif=VERIF):
         t0 = time.time()
         rc, out = sh([os.path.join(verif, "check"), prop, tier], cwd=verif, env=e, timeout=7200)
         viol = [l for l in out.splitlines() if l.startswith("VIOLATION")]
-        return meta, {"exit": rc, "caught": rc == 1 and bool(viol), "violation_lines": viol[:3],
+        return meta, {"exit": rc, "caught": rc == 1 and bool(viol), "violation_lines": viol[:3], "any_concrete": any("no-failing-input-found" not in l for l in viol),
                       "tail": out[-800:], "wall_s": round(time.time() - t0, 1)}
     finally:
         drop_wt(wt)
@@ -127,6 +127,12 @@ def main():
         tier = a[2] if len(a) > 2 else "quick"
         meta, res = run(a[1], tier, verif)
         print(json.dumps(res, indent=1))
+        rec = {"tier": tier, "caught": bool(res.get("caught")), "exit": res.get("exit"),
+               "violation_lines": [re.sub(r"replay=\S*/", "replay=", l) for l in (res.get("violation_lines") or [])],
+               "concrete": bool(res.get("any_concrete")),
+               "wall_s": res.get("wall_s"), "when": time.strftime("%Y-%m-%dT%H:%M:%SZ", time.gmtime()),
+               "repo_head": sh(["git", "-C", REPO, "rev-parse", "--short", "HEAD"])[1].strip()}
+        open(os.path.join(a[1], "last_run.json"), "w").write(json.dumps(rec, indent=1) + "\n")
         sys.exit(0 if res.get("caught") else 1)
     if cmd == "runall":
         tier = a[1] if len(a) > 1 else "quick"
